@@ -15,12 +15,12 @@ from .a_graph import GraphSim
 from .b_builders import BuilderSim, Discard
 
 
-def produce(ctx, weights=(4, 3, 3), force_in_range=False):
+def produce(ctx, weights=(4, 3, 3), force_in_range=False, stray_links=True):
     """Returns (hugr, in_range, label) or None (discard). Draws the workload kind and runs it."""
     ch = ctx.ch
     kind = ch.weighted(list(weights), "workload")
     if kind == 0:  # (i) engine-B product
-        sim = _builder(ctx)
+        sim = _builder(ctx, stray_links)
         if sim is None:
             return None
         ctx.profile.update(workload="builder")
@@ -38,7 +38,7 @@ def produce(ctx, weights=(4, 3, 3), force_in_range=False):
             ctx.probe("serialised_after_index_reuse")
         return g.h, in_range, "graph"
     # (iii) engine-B product mutated by engine-A clients
-    sim = _builder(ctx)
+    sim = _builder(ctx, stray_links)
     if sim is None:
         return None
     gs = GraphSim(ctx, in_range=True, allow_delete=True, allow_insert=ch.coin(1, 3, "p-insert"), use_meta=True,
@@ -53,11 +53,12 @@ def produce(ctx, weights=(4, 3, 3), force_in_range=False):
     return g.h, True, "builder+graph"
 
 
-def _builder(ctx):
+def _builder(ctx, stray_links=True):
     ch = ctx.ch
     feats = {"cond": ch.coin(3, 4, "f-cond"), "loop": ch.coin(3, 4, "f-loop"), "cfg": ch.coin(3, 4, "f-cfg"),
              "calls": ch.coin(3, 4, "f-calls"), "poly": ch.coin(1, 2, "f-poly"), "meta": ch.coin(3, 4, "f-meta"),
-             "insert": ch.coin(1, 3, "f-insert")}
+             "insert": ch.coin(1, 3, "f-insert"),
+             "odd_names": ch.coin(1, 3, "f-odd-names"), "second_ext": ch.coin(1, 3, "f-second-ext"), "stray_links": stray_links and ch.coin(1, 3, "f-stray-links")}
     feats["failed_inserts"] = feats["insert"] and ch.coin(1, 2, "f-failed-inserts")
     try:
         sim = BuilderSim(ctx, features=feats, max_steps=10 + ch.draw(40, "max-steps"))
